@@ -62,6 +62,13 @@ func stateName(s discovery.ChangeType) string {
 
 // reference ---------------------------------------------------------------------
 
+// valid: the rules of a file that parse (rules with a rule-level defect have no
+// parsed content and are not subject to classification).
+func valid(f hist.File) []hist.Rule {
+	rs, _ := f.ValidRules()
+	return rs
+}
+
 func has(set []string, s string) bool {
 	for _, x := range set {
 		if x == s {
@@ -93,7 +100,7 @@ func stolenGroups(rules []hist.Rule, base *hist.File) map[string]bool {
 		return out
 	}
 	bc := map[string]int{}
-	for _, r := range base.Rules() {
+	for _, r := range valid(*base) {
 		bc[r.ContentKey()]++
 	}
 	changedSeen := map[string]bool{}
@@ -113,7 +120,7 @@ func stolenGroups(rules []hist.Rule, base *hist.File) map[string]bool {
 // checkFile compares pint's classification of the rules of one HEAD file with
 // the reference under one reading of the file's origin (base == nil: new file).
 func checkFile(path string, head hist.File, obs []Obs, base *hist.File, basePath string, rx relax) error {
-	rules := head.Rules()
+	rules := valid(head)
 	if base == nil {
 		for i, r := range rules {
 			if obs[i].State != "added" {
@@ -135,7 +142,7 @@ func checkFile(path string, head hist.File, obs []Obs, base *hist.File, basePath
 		why = fmt.Sprintf("file-level disabled checks changed %v -> %v", base.DisableSet(), head.DisableSet())
 	}
 	baseContent, baseName := map[string]int{}, map[string]int{}
-	for _, r := range base.Rules() {
+	for _, r := range valid(*base) {
 		baseContent[r.ContentKey()]++
 		baseName[r.NameKey()]++
 	}
@@ -231,8 +238,7 @@ func oracle(h hist.History, observed map[string][]Obs, rx relax) (verdict, error
 	renames := false
 	for _, tr := range h.Ledger() {
 		hf, _ := head.Get(tr.Path)
-		rules := hf.File.Rules()
-		_, infos := hist.Render(hf.File)
+		rules, infos := hf.File.ValidRules()
 		obs := observed[tr.Path]
 		if len(obs) != len(rules) {
 			return v, fmt.Errorf("%s: HEAD holds %d rules, pint lists %d non-removed entries for this path: %+v", tr.Path, len(rules), len(obs), obs)
@@ -282,7 +288,7 @@ func oracle(h hist.History, observed map[string][]Obs, rx relax) (verdict, error
 			bf, _ := fork.Get(o.Path)
 			if reflect.DeepEqual(bf.File.DisableSet(), hf.File.DisableSet()) {
 				bc := map[string]int{}
-				for _, r := range bf.File.Rules() {
+				for _, r := range valid(bf.File) {
 					bc[r.ContentKey()]++
 				}
 				un, ch := 0, 0
@@ -325,11 +331,12 @@ func observeInProcess(repo *hist.Repo, ci *hist.CIChecks) (map[string][]Obs, err
 	}
 	out := map[string][]Obs{}
 	for _, e := range found.Entries {
-		if e.PathError != nil || e.Rule.Error.Err != nil {
-			if e.State == discovery.Removed {
-				continue
-			}
-			return nil, fmt.Errorf("%w: generated file %s does not parse: %v %v", errHarness, e.Path.Name, e.PathError, e.Rule.Error.Err)
+		if e.PathError != nil {
+			return nil, fmt.Errorf("%w: generated file %s does not parse: %v", errHarness, e.Path.Name, e.PathError)
+		}
+		if e.Rule.Error.Err != nil {
+			// a rule with a rule-level defect (generated on purpose): not judged
+			continue
 		}
 		if e.Path.Name != e.Path.SymlinkTarget {
 			return nil, fmt.Errorf("entry with a symlink target in a history without symlinks: %s -> %s", e.Path.Name, e.Path.SymlinkTarget)
@@ -399,8 +406,7 @@ func observeBinary(repo *hist.Repo, h hist.History) (map[string][]Obs, error) {
 	for p, l := range out {
 		sort.SliceStable(l, func(i, j int) bool { return l[i].Line < l[j].Line })
 		if hf, ok := h.Head().Get(p); ok {
-			rules := hf.File.Rules()
-			_, infos := hist.Render(hf.File)
+			rules, infos := hf.File.ValidRules()
 			for i := range l {
 				for j, inf := range infos {
 					if inf.First == l[i].Line {
@@ -529,11 +535,12 @@ func profile(known map[string]string) hist.Profile {
 		Weights: map[string]int{
 			"file-add": 2, "file-del": 2, "rename": 3, "rename-edit": 1,
 			"rule-add": 5, "rule-mod": 8, "rule-del": 4, "rule-dup": 2, "rule-swap": 1,
-			"cosmetic": 6, "filectl": 2, "revert": 3, "rule-trim": 4,
+			"cosmetic": 6, "filectl": 2, "revert": 3, "rule-trim": 4, "invalid-add": 1, "invalid-del": 1,
 		},
 		ReorderDisable: !reorderListed,
 		Cosmetics:      true,
 		ChainOneIn:     2,
+		InvalidOneIn:   5,
 	}
 }
 
@@ -561,10 +568,10 @@ func shapesOf(h hist.History) []string {
 			shape = "samebytes-touched"
 		case bf.Text != hf.Text && o == tr.Path && reflect.DeepEqual(bf.File.DisableSet(), hf.File.DisableSet()):
 			a, b := []string{}, []string{}
-			for _, r := range bf.File.Rules() {
+			for _, r := range valid(bf.File) {
 				a = append(a, r.ContentKey())
 			}
-			for _, r := range hf.File.Rules() {
+			for _, r := range valid(hf.File) {
 				b = append(b, r.ContentKey())
 			}
 			sort.Strings(a)
@@ -604,7 +611,12 @@ func flagsOf(c Case) []string {
 	if usesOp(h, "file-del") {
 		fl = append(fl, "filedel")
 	}
-	for _, op := range []string{"rule-trim-last", "rule-trim-mid", "chain-rename", "chain-rename-back", "chain-edit", "chain-revert", "chain-readd", "chain-cosmetic", "chain-cosmetic-revert", "revert", "cosmetic", "rule-add", "rule-mod", "rule-del", "rule-dup", "rule-swap", "filectl-add", "filectl-del", "filectl-swap"} {
+	for _, f := range h.Head() {
+		if f.File.InvalidCount() > 0 && !has(fl, "invalid-rule-at-head") {
+			fl = append(fl, "invalid-rule-at-head")
+		}
+	}
+	for _, op := range []string{"invalid-add", "invalid-del", "rule-trim-last", "rule-trim-mid", "chain-rename", "chain-rename-back", "chain-edit", "chain-revert", "chain-readd", "chain-cosmetic", "chain-cosmetic-revert", "revert", "cosmetic", "rule-add", "rule-mod", "rule-del", "rule-dup", "rule-swap", "filectl-add", "filectl-del", "filectl-swap"} {
 		if usesOp(h, op) {
 			fl = append(fl, op)
 		}
